@@ -29,6 +29,10 @@ EQUIV_LAYOUTS = [
     ("LAYOUT: LI | LAYOUT LI | EMPTY;\nLI: WS;", r"WS: /[ \t\r\n]+/;"),
     ("LAYOUT: LI | LAYOUT LI | EMPTY;\nLI: WS;", r"WS: /[ \t\r\n]/;"),
     ("LAYOUT: LI | LI LAYOUT | EMPTY;\nLI: WS;", r"WS: /[ \t\r\n]/;"),
+    ("LAYOUT: LAYOUT WS | EMPTY;", r"WS: /[ \t\r\n]/;"),
+    ("LAYOUT: WS LAYOUT | EMPTY;", r"WS: /[ \t\r\n]+/;"),
+    ("LAYOUT: WS*;", r"WS: /[ \t\r\n]/;"),
+    ("LAYOUT: LI+ | EMPTY;\nLI: WS | WS WS;", r"WS: /[ \t\r\n]/;"),
 ]
 
 
@@ -206,7 +210,7 @@ def _case(gstrat, lex):
         f2 = draw(st.lists(st.sampled_from(pool), min_size=3, max_size=6))
         nterm = len(g["terms"])
         return {"g": g, "lex": lex, "layout": layout, "fill1": f1, "fill2": f2,
-                "equiv": draw(st.integers(0, 3)), "max_len": 4 if nterm <= 2 else 3}
+                "equiv": draw(st.integers(0, 7)), "max_len": 4 if nterm <= 2 else 3}
     return c()
 
 
